@@ -38,6 +38,23 @@ class Undecided(Exception):
         self.detail = detail
 
 
+def _mem_total_gb():
+    try:
+        for l in open("/proc/meminfo"):
+            if l.startswith("MemTotal:"):
+                return int(l.split()[1]) // (1024 * 1024)
+    except Exception:
+        pass
+    return 16
+
+
+# entries of units marked "heavy" (several GB of solver memory each) never run more than HEAVY_SLOTS at a time, so that
+# 16 parallel jobs cannot exhaust the machine (an exhausted machine shows up as obligations with status ERROR: exit 2)
+import threading
+HEAVY_SLOTS = max(2, _mem_total_gb() // 8)
+HEAVY = threading.BoundedSemaphore(HEAVY_SLOTS)
+
+
 def run(cmd, cwd=None, timeout=600, mem_kb=MEM_KB, env=None):
     t0 = time.time()
     pre = "ulimit -v %d; " % mem_kb
@@ -507,7 +524,11 @@ def run_entry(vu, work, entry, tier, cover=False):
         cmd += ["--trace"]
     cmd += ["--json-ui"]
     to = int(os.environ.get("VERIF_TIMEOUT", entry.get("timeout", {"quick": 1500, "thorough": 3600}[tier])))
-    rc, so, se, dt = run(cmd, cwd=work, timeout=to)
+    if vu.get("heavy") or entry.get("heavy"):
+        with HEAVY:
+            rc, so, se, dt = run(cmd, cwd=work, timeout=to)
+    else:
+        rc, so, se, dt = run(cmd, cwd=work, timeout=to)
     res = {"entry": name, "cmd": " ".join(cmd), "seconds": round(dt + t_inst, 2), "backend": backend,
            "unwind_is_termination": bool(entry.get("unwind_is_termination")),
            "bounds": bounds, "mode": entry.get("mode", "B" if unwind else "P")}
